@@ -97,7 +97,17 @@ fn main() {
         }
     } else {
         let r = Run::new(sid, tier, seed);
-        f(&r);
+        // A panic that escapes the per-call guards: if it was raised inside the subject (source location
+        // under /repo), the subject failed on an input of the property's quantifier - a finding with
+        // the panic message as witness; a panic of the harness itself is a machinery failure.
+        if std::panic::catch_unwind(std::panic::AssertUnwindSafe(|| f(&r))).is_err() {
+            let msg = common::guard::LAST_PANIC_GLOBAL.lock().map(|g| g.clone()).unwrap_or_default();
+            if msg.contains("/repo/src/") || msg.contains("panicked at src/") {
+                r.violate("subject-panic/unguarded", || format!("the subject panicked outside a guarded call: {}", msg.replace('\n', " | ")));
+            } else {
+                r.machinery_error(format!("the harness panicked: {}", msg.replace('\n', " | ")));
+            }
+        }
         r.finish(&mut *out, None)
     };
     let _ = out.flush();
